@@ -7,6 +7,7 @@ WORLDS = {
     "w2": {"pkg": "pkg/broker", "harness": "w2", "weave": MAIN_WEAVE},
     "w10": {"pkg": "pkg/cache", "harness": "w10", "weave": ["./pkg/cache/"]},
     "w11": {"pkg": "pkg/broker", "harness": "w11", "weave": MAIN_WEAVE},
+    "w8": {"pkg": "internal/console", "harness": "w8", "weave": MAIN_WEAVE},
 }
 
 def P(world, **kw):
@@ -50,6 +51,8 @@ PROPS = {
              level_text="generated request frames (every API key the codec knows, every version, generated bodies) and header-targeted mutations are streamed to the real connection loop over simulated connections that fragment, end and reset at arbitrary bytes, several connections at once; a panic in any server task is the violation. The deciding dimension is the generated bytes; the simulator contributes the stream (fragmentation/EOF/reset) and the observation 'one connection's frame kills the node'"),
     "C26": P("w11", quick_runs=8000, thorough_runs=500000, quick_budget_s=60, thorough_budget_s=900, panics_are_verdicts=True, required_probes=["c26.complete-header", "c26.headerless", "c26.truncated-header"],
              level_text="generated PROXY v1/v2 headers (all families/commands, TLVs), header look-alikes and headerless streams, delivered in arbitrary fragments and cut at arbitrary bytes; mostly input generation, the simulator contributes the stream"),
+    "C38": P("w8", quick_runs=4000, thorough_runs=300000, quick_budget_s=60, thorough_budget_s=900,
+             required_probes=["c38.expired-token-used", "c38.logged-out-token-used", "c38.live-token-used", "c38.rate-limited"]),
 }
 
 NA = {
